@@ -14,7 +14,7 @@ def run(ctx):
     cbl = P.fns.get(CORE + "compute_binding_factor_list")
     if f and enc and cbl:
         v = FnView.get(P, f)
-        oks = [v.cx.operand(rv["ops"][0]) for (b, k, rv) in ret_writes(f) if k == "ok"]
+        oks = ok_values(f, v)
         t = oks[0] if oks else ("unknown", "")
         # closure return (the per-identifier preimage) with the captured prefix
         clo = [s for s in subterms(t) if s[0] == "closure"]
@@ -35,7 +35,7 @@ def run(ctx):
                       "the binding-factor (H1) preimage no longer depends on the %s: a share would verify in a session "
                       "that differs in it" % name, f.loc)
         ve = FnView.get(P, enc)
-        et = [ve.cx.operand(rv["ops"][0]) for (b, k, rv) in ret_writes(enc) if k == "ok"]
+        et = ok_values(enc, ve)
         et = et[0] if et else ("unknown", "")
         item = next_item(arg(1))
         for name, pr in (("identifier", lambda s: tfield(item, 0)(s)),
@@ -53,7 +53,7 @@ def run(ctx):
     ch = P.fns.get(CORE + "challenge")
     if ch:
         v = FnView.get(P, ch)
-        oks = [v.cx.operand(rv["ops"][0]) for (b, k, rv) in ret_writes(ch) if k == "ok"]
+        oks = ok_values(ch, v)
         h = [s for t in oks for s in subterms(t) if is_call(s, name="H2")]
         op = h[0][2][0] if h else ("unknown", "")
         for name, pr in (("group-commitment-R", lambda s: is_call(s, name="serialize") and s[2][0] == ("arg", 1)),
